@@ -24,7 +24,7 @@
    copies of computeCacheHash (ctlog.go / cmd/recompute-cache) are one function in the model
    (ckey / leaf_ckey); that the tool's copy computes it is what the correspondence run checks by
    running the real binary (cache rows compared row by row, monitor C07.cacherow). *)
-From SL Require Import Merkle.TilesProofs Ctlog.Model Ctlog.Spec Ctlog.Inv2 Ctlog.Theorems2 Ctlog.Theorems3 Ctlog.RecomputeOk Ctlog.Example Ctlog.Legacy Ctlog.LegacyProofs.
+From SL Require Import Merkle.TilesProofs Ctlog.Model Ctlog.Spec Ctlog.Inv2 Ctlog.Theorems2 Ctlog.Theorems3 Ctlog.RecomputeOk Ctlog.Example Ctlog.Legacy Ctlog.LegacyProofs Base.Cryptobyte Gen.Builders Ctlog.GenProofs.
 
 Theorem C07_resubmission_joins_pending : forall sha c p inseq cache e low victim wid wd,
   in_pool sha p (ckey sha e) = Some wd \/ (in_pool sha p (ckey sha e) = None /\ in_pool sha inseq (ckey sha e) = Some wd) ->
@@ -123,3 +123,23 @@ Theorem C07_legacy_answer_refuted :
   ~ holds_at id_sha col_hist (ckey id_sha col_e2) 0 20.
 Proof. exact legacy_answer_refuted. Qed.
 Print Assumptions C07_legacy_answer_refuted.
+
+(* ---------- the two copies of computeCacheHash, translated from the Go source on every run ----------
+   Gen/Builders.v is rewritten by /verif/translate from /repo's current ctlog.go and
+   recompute-cache.go before this file is compiled: gen_ctlog_cache_key / gen_recompute_cache_key
+   are the cryptobyte.Builder terms those two functions build. *)
+Theorem C07_cache_key_code_is_model : forall cert pre ikh,
+  gen_ctlog_cache_key cert pre ikh = cache_preimage cert pre ikh.
+Proof. exact gen_ctlog_cache_key_is_model. Qed.
+Print Assumptions C07_cache_key_code_is_model.
+
+Theorem C07_cache_key_copies_agree : forall cert pre ikh,
+  gen_recompute_cache_key cert pre ikh = gen_ctlog_cache_key cert pre ikh.
+Proof. exact cache_key_copies_agree. Qed.
+Print Assumptions C07_cache_key_copies_agree.
+
+Theorem C07_cache_key_both_hash_the_built_bytes :
+  gen_ctlog_cache_key_returns = "cacheHash(sha256.Sum256(b.BytesOrPanic()))"%string /\
+  gen_recompute_cache_key_returns = "cacheHash(sha256.Sum256(b.BytesOrPanic()))"%string.
+Proof. exact cache_key_return_wrappers. Qed.
+Print Assumptions C07_cache_key_both_hash_the_built_bytes.
